@@ -2,6 +2,8 @@ package props
 
 import (
 	"go/ast"
+	"go/types"
+	"strings"
 
 	"golibcheck/internal/core"
 	"golibcheck/internal/wire"
@@ -36,6 +38,12 @@ func runC02(p *core.Program, r *core.Report) {
 	r.Rule("C02.fields", "each written field is stored by the reader into the same field", 18)
 	r.Rule("C02.countlink", "container readers loop over the count the writer emitted", 18)
 	r.Rule("C02.order", "containers are rebuilt in the order written: reader appends at the tail, writer enumerates from the head", 3)
+	for _, sfx := range []struct{ s, doc string }{{"insert", "new key: one bucket insertion, one tail link, one size increment"}, {"update", "existing key: size/buckets unchanged"},
+		{"bound", "eviction only with a maximum set"}, {"growth", "rehash iff count >= threshold; table/index recomputed"}, {"remove", "remove unlinks and counts once"},
+		{"rehash", "rehash keeps every entry findable (same hash as lookups)"}, {"walks", "whole-table walks cover all buckets"}, {"enumer", "enumerators carry the matching discriminator"},
+		{"sort", "Sort re-inserts every entry"}, {"index", "bucket indices non-negative"}} {
+		r.Rule("C02.backing."+sfx.s, "the linked maps that back MapValue/IntMapValue keep every decoded entry retrievable: "+sfx.doc+" (C09's rule table on those two types)", 2)
+	}
 	reg := checkRegistry(p, r, "C02.registry", "lang/value", "CreateValue", "Value", "GetValueType")
 	if !reg.DefaultPanics {
 		r.Viol("C02.registry", "lang/value.CreateValue default", "-", "an unknown type code does not end in panic: ReadValue would dereference a nil Value or fabricate one")
@@ -45,11 +53,59 @@ func runC02(p *core.Program, r *core.Report) {
 	pairs, _ := discoverPairs(p, x, []string{"lang/value"})
 	runPairs(p, x, r, pairs, pairRules{"C02.pairs", "C02.fields", "C02.countlink"}, tierDepth(r))
 	c02Order(p, r)
+	c02Backing(p, r)
 }
 
 // c02Order: MapValue/IntMapValue.Read insert with the plain Put of the backing linked map (tail
 // insertion) inside the decode loop and Write enumerates Keys()/Entries() (head to tail);
 // ListValue reads by append / index-ascending and writes index-ascending.
+// c02Backing runs the linked-map rule table (C09) on the util/hmap types that back the map values:
+// a decoded map with more entries than the initial threshold is only equal to what was written if
+// growth, re-bucketing and lookup agree.
+func c02Backing(p *core.Program, r *core.Report) {
+	modes := hmapModes(p)
+	seen := map[*types.Named]bool{}
+	for _, tn := range []string{"MapValue", "IntMapValue"} {
+		pk := p.Pkg("lang/value")
+		if pk == nil {
+			continue
+		}
+		obj, _ := pk.Types.Scope().Lookup(tn).(*types.TypeName)
+		if obj == nil {
+			r.Undec("C02.backing.insert", "lang/value."+tn, "-", "type not found")
+			continue
+		}
+		st, _ := obj.Type().Underlying().(*types.Struct)
+		found := false
+		for i := 0; st != nil && i < st.NumFields(); i++ {
+			ft := st.Field(i).Type()
+			if pt, ok := ft.(*types.Pointer); ok {
+				ft = pt.Elem()
+			}
+			nt, ok := ft.(*types.Named)
+			if !ok || nt.Obj().Pkg() == nil || !strings.HasSuffix(nt.Obj().Pkg().Path(), "/util/hmap") {
+				continue
+			}
+			found = true
+			if seen[nt] {
+				continue
+			}
+			seen[nt] = true
+			h := &hmapType{p: p, r: r, pre: "C02.backing", t: nt, name: "util/hmap." + nt.Obj().Name(), linked: true, hasMax: structHasField(nt, "max"), modes: modes}
+			h.checkInsertHelpers()
+			h.checkRemove()
+			h.checkRehash()
+			h.checkWalks()
+			h.checkEnumer()
+			h.checkSort()
+			h.checkIndexSign()
+		}
+		if !found {
+			r.Undec("C02.backing.insert", "lang/value."+tn, "-", "no util/hmap field backs this value type")
+		}
+	}
+}
+
 func c02Order(p *core.Program, r *core.Report) {
 	for _, tn := range []string{"MapValue", "IntMapValue"} {
 		rd := p.Method("lang/value", tn, "Read")
